@@ -646,16 +646,48 @@ def ss_dup(progs):
 
             lvals = A.local_values(body)
 
+            def resolve(e, depth=0):
+                e = A.strip(e)
+                while isinstance(e, dict) and e.get('k') == 'construct' and len(e.get('args', []) or []) == 1:
+                    e = A.strip(e['args'][0])
+                if isinstance(e, dict) and e.get('k') == 'ref' and e.get('dk') == 'local' and depth < 3:
+                    vals = lvals.get(e.get('did'), [])
+                    if len(vals) == 1:
+                        return resolve(vals[0], depth + 1)
+                return e
+
+            def whole(x):
+                """The scan covers [_vec.begin(), _vec.end()): a test over a part of the vector misses the elements outside it."""
+                if A.cshort(x) in ('find_small', 'mfind_small'):
+                    return True
+                args = x.get('args', []) or []
+                if len(args) < 2:
+                    return True
+                b, e = resolve(args[0]), resolve(args[1])
+                okb = isinstance(b, dict) and b.get('k') == 'call' and A.cshort(b) in ('begin', 'cbegin') and member_of(b, linit) == ('this', '_vec')
+                oke = isinstance(e, dict) and e.get('k') == 'call' and A.cshort(e) in ('end', 'cend') and member_of(e, linit) == ('this', '_vec')
+                cands = [e]
+                if isinstance(e, dict) and e.get('k') == 'ref' and e.get('dk') == 'local':
+                    cands = lvals.get(e.get('did'), [])
+                if okb and not oke and any(y is cur[0] for c_ in cands if isinstance(c_, dict) for y in walk(c_)):
+                    return True                      # add-then-check: everything before the element that was just added
+                if okb and not oke:
+                    partial.append(x)
+                return not okb or oke
+
             def has_scan(node, depth=0):
                 for x in walk(node):
-                    if x.get('k') == 'call' and A.cshort(x) in SCAN:
+                    if x.get('k') == 'call' and A.cshort(x) in SCAN and whole(x):
                         return True
                     if depth < 3 and x.get('k') == 'ref' and x.get('dk') == 'local':
                         # the local may have been initialised or assigned from the scan (`found = std::none_of(...)`)
                         if any(has_scan(v, depth + 1) for v in lvals.get(x.get('did'), [])):
                             return True
                 return False
+            cur = [None]
             for a in adds:
+                partial = []
+                cur[0] = a
                 ok = any(has_scan(cond) for cond, truth in P.guards(a))
                 if not ok:
                     # add-then-check: a later scan over the vector and a pop_back guarded by its result
@@ -665,6 +697,8 @@ def ss_dup(progs):
                 rr.instance('%s|%s' % (f['key'], rel(prog.site(f, a))), {'function': f['pname'][:140], 'add': A.cshort(a), 'membership_tested': ok})
                 if not ok:
                     rr.add(Finding('SS-DUP', '%s|%s' % (f['key'], A.cshort(a)), prog.site(f, a),
+                                   ('an element is added to the inline vector after a membership test that starts at _vec.begin() but does not run to _vec.end(): '
+                                    'an equivalent element outside the tested part is missed and duplicates can enter the set') if partial else
                                    'an element is added to the inline vector on a path with no membership test over the vector: duplicates can enter the set',
                                    where=f['pname'], unit=prog.uname))
     return rr
